@@ -19,6 +19,9 @@ import (
 	"testing"
 
 	nri "github.com/containerd/nri/pkg/api"
+	podresv1 "k8s.io/kubelet/pkg/apis/podresources/v1"
+
+	"github.com/containers/nri-plugins/pkg/agent/podresapi"
 
 	logger "github.com/containers/nri-plugins/pkg/log"
 	"github.com/containers/nri-plugins/pkg/utils/cpuset"
@@ -93,6 +96,16 @@ func c10Apply(cch Cache, op string) {
 		var i int
 		fmt.Sscanf(f[1], "%d", &i)
 		cch.InsertContainer(c10Ctr(i), WithContainerState(ContainerStateCreating))
+	case "podres":
+		// a pod whose resources are fetched asynchronously from the kubelet pod resources API (as RunPodSandbox does):
+		// the result arrives after InsertPod - and after the save InsertPod makes - has returned
+		var i int
+		fmt.Sscanf(f[1], "%d", &i)
+		ch := make(chan *podresapi.PodResources, 1)
+		p := cch.InsertPod(c10Pod(i), ch)
+		ch <- &podresapi.PodResources{PodResources: &podresv1.PodResources{Name: fmt.Sprintf("pod%d", i), Namespace: "ns",
+			Containers: []*podresv1.ContainerResources{{Name: fmt.Sprintf("c%d", i), CpuIds: []int64{1, 2}}}}}
+		p.GetPodResources() // returns once the fetch has completed
 	case "delpod":
 		cch.DeletePod(f[1])
 	case "delctr":
@@ -140,7 +153,7 @@ func c10Apply(cch Cache, op string) {
 	}
 }
 
-var c10Ops = []string{"pod:0", "pod:1", "ctr:0", "ctr:1", "creating:2", "pin:c0", "pin:c1", "state:c0", "tag:c0", "upd:c0", "classes:c1", "aff:c0",
+var c10Ops = []string{"pod:0", "pod:1", "podres:1", "ctr:0", "ctr:1", "creating:2", "pin:c0", "pin:c1", "state:c0", "tag:c0", "upd:c0", "classes:c1", "aff:c0",
 	"entry-string", "entry-map", "entry-cpuset", "entry-cacheable", "delctr:c0", "delpod:p1", "restart"}
 
 // c10Render renders everything the property lists, through public getters only.
@@ -157,7 +170,8 @@ func c10Render(cch Cache) string {
 		for _, a := range aff {
 			affS = append(affS, a.String())
 		}
-		out["pod/"+p.GetID()] = []any{p.GetUID(), p.GetName(), p.GetNamespace(), string(p.GetQOSClass()), p.GetCgroupParent(), ann, lbl, eff, effOK, affS, affErr == nil}
+		pres, _ := json.Marshal(p.GetPodResources())
+		out["pod/"+p.GetID()] = []any{p.GetUID(), p.GetName(), p.GetNamespace(), string(p.GetQOSClass()), p.GetCgroupParent(), ann, lbl, eff, effOK, affS, affErr == nil, string(pres)}
 	}
 	ctrs := cch.GetContainers()
 	sort.Slice(ctrs, func(i, j int) bool { return ctrs[i].GetID() < ctrs[j].GetID() })
@@ -173,6 +187,11 @@ func c10Render(cch Cache) string {
 		devs, _ := json.Marshal(c.GetDevices())
 		hints, _ := json.Marshal(c.GetTopologyHints())
 		_, podOK := c.GetPod()
+		cres := "-"
+		if podOK {
+			d, _ := json.Marshal(c.GetPodResources())
+			cres = string(d)
+		}
 		var aff []*Affinity
 		var affErr error
 		if podOK {
@@ -186,7 +205,7 @@ func c10Render(cch Cache) string {
 		out["ctr/"+c.GetID()] = []any{c.GetPodID(), c.GetName(), c.GetNamespace(), int(c.GetState()), string(c.GetQOSClass()), c.GetArgs(), lbl, env,
 			c.GetCpusetCpus(), c.GetCpusetMems(), c.GetCPUShares(), c.GetCPUQuota(), c.GetCPUPeriod(), c.GetMemoryLimit(), c.GetMemorySwap(),
 			string(req), updOK, string(updJ), tag, tagOK, goneOK, string(mounts), string(devs), string(hints), c.GetRDTClass(), c.GetBlockIOClass(),
-			affS, affErr == nil, podOK}
+			affS, affErr == nil, podOK, cres}
 	}
 	var s string
 	if cch.GetPolicyEntry("s", &s) {
